@@ -210,7 +210,7 @@ func getBackend(name string) *backend {
 			return store.NewEtcdMetaStore(bg(), config.EtcdServerConfig{Address: []string{endpoint}}, root)
 		}
 		b.raw = func() []rawRec {
-			ctx, cancel := context.WithTimeout(bg(), 10*time.Second)
+			ctx, cancel := context.WithTimeout(bg(), 60*time.Second)
 			defer cancel()
 			resp, err := cli.Get(ctx, "", clientv3.WithPrefix())
 			if err != nil {
@@ -223,7 +223,7 @@ func getBackend(name string) *backend {
 			return out
 		}
 		b.wipe = func() {
-			ctx, cancel := context.WithTimeout(bg(), 10*time.Second)
+			ctx, cancel := context.WithTimeout(bg(), 60*time.Second)
 			defer cancel()
 			if _, err := cli.Delete(ctx, "", clientv3.WithPrefix()); err != nil {
 				fatal("etcd wipe: %v", err)
@@ -562,6 +562,8 @@ func runPlan(p *hx.Plan) []hx.Event {
 }
 
 func main() {
+	// the machine may be very busy (many builders): a slow embedded etcd must not look like a failing store call
+	store.EtcdOpTimeout = 60 * time.Second
 	hx.Run(runPlan)
 	for _, c := range cleanups {
 		c()
